@@ -168,6 +168,11 @@ def build(desc):
                 data = rs.randint(-9, 9, (len(eids), dim)) / 2.0
             per[t] = FEMAttribute(name, eids, data)
         fd.elemental_data.update({name: FEMElementalAttribute(name, per)})
+    for key, name, dim in desc.get('nodal_alias', []):
+        # stored under a key that differs from the attribute's own name
+        fd.nodal_data.update({key: FEMAttribute(name, node_ids, rs.randint(-9, 9, (n, dim)) / 2.0)})
+    for name, dim in desc.get('overwrite', []):
+        fd.nodal_data.overwrite(name, rs.randint(-9, 9, (n, dim)) / 2.0)
     for name, dim in desc.get('constraints', []):
         k = max(1, n // 2)
         ids = rs.choice(node_ids, k, replace=False)
@@ -461,10 +466,15 @@ def keycase(kc):
     """to_dict / from_dict on objects with chosen names and element types; every
     attribute carries the tags (2i, 2i+1) in its ids / data"""
     cnt = [0]
+    alias = kc.get('alias')
 
     def A(name):
         i = cnt[0]
         cnt[0] += 1
+        if alias == 'distinct':
+            name = f'internal{i}'
+        elif alias == 'same':
+            name = 'v'
         return FEMAttribute(name, np.array([1000 + 2 * i]), np.array([[2 * i + 1]]), silent=True)
 
     def dec_attr(a):
@@ -489,7 +499,7 @@ def keycase(kc):
             d = obj.to_dict()
             load = lambda: [[str(n), dec_attr(a)] for n, a in FEMAttributes.from_dict(d).items()]  # noqa: E731
         elif kind == 'eattrs':
-            obj = FEMAttributes({n: FEMElementalAttribute(n, {t: A(n) for t in ts})
+            obj = FEMAttributes({n: FEMElementalAttribute('v' if alias else n, {t: A(n) for t in ts})
                                  for n, ts in kc['items']}, is_elemental=True)
             d = obj.to_dict()
             load = lambda: [[str(n), dec_elem(e)] for n, e in  # noqa: E731
